@@ -40,7 +40,10 @@
 #include "verif.h"
 
 #ifndef FAMMAX
-#define FAMMAX 3  // family size 1..FAMMAX (<= 4)
+#define FAMMAX 3  // family size FAMMIN..FAMMAX (<= 4)
+#endif
+#ifndef FAMMIN
+#define FAMMIN 1
 #endif
 #ifndef POOL1
 #define POOL1 0x3fffff  // bit i: arity-1 candidate i is in the pool
@@ -639,6 +642,7 @@ void check_case(int arity, const ArgTuple &t, int n, const Cand *const *fam, con
         if (!first.map.ts_vars.empty() && !first.map.scalar_vars.empty()) verif_reach("ts_and_scalar_vars_bound");
         if (!first.map.size_vars.empty()) verif_reach("size_var_bound");
     }
+    if (n == 4) verif_reach("four_member_family_24_orders");
     if (first.kind == R_NOMATCH) verif_reach("no_match_error");
     if (first.kind == R_AMBIG) verif_reach("ambiguity_error");
     for (int i = 0; i < n; i++) {
@@ -661,7 +665,7 @@ static void native_sweep(Wiring &w, Obs &obs) {
             const std::vector<ArgTuple> &tuples = arity == 1 ? T1 : T2;
             int P = (int)pool.size();
             for (int ti = 0; ti < (int)tuples.size(); ti++)
-                for (int n = 1; n <= FAMMAX; n++)
+                for (int n = FAMMIN; n <= (FAMMAX < 3 ? FAMMAX : 3); n++)
                     for (int i0 = 0; i0 < P; i0++)
                         for (int i1 = (n >= 2 ? i0 + 1 : P - 1); i1 < P; i1++)
                             for (int i2 = (n >= 3 ? i1 + 1 : P - 1); i2 < P; i2++) {
@@ -706,7 +710,7 @@ extern "C" int harness_main() {
     unsigned amask = arity == 1 ? (unsigned)ARGS1 : (unsigned)ARGS2;
     int ti = pick_from_mask("args", amask, (int)tuples.size(), 0);
     const ArgTuple &t = tuples[ti];
-    int n = 1 + verif_choice("fam_n", FAMMAX);
+    int n = FAMMIN + verif_choice("fam_n", FAMMAX - FAMMIN + 1);
     const Cand *fam[4];
     int famidx[4];
     int lo = 0;
